@@ -202,6 +202,7 @@ def do_quantize(w, d, op, p):
     pre_hyper = {n: {a: getattr(m, a, None) for a in HYPER[predicted[n]]} for n, m in before if n in predicted}
     pre_other = {n: R.tensor_digest(None) for n, m in before}
     other_digest = {n: hexdigest([(pn, R.tensor_digest(pp)) for pn, pp in m.named_parameters(recurse=False)]) for n, m in before if n not in predicted}
+    other_mode = {n: m.training for n, m in before if n not in predicted}
     try:
         if filt is None:
             quantize(model, **kwargs)
@@ -262,6 +263,8 @@ def do_quantize(w, d, op, p):
                     w.violate("C08", "structure", "quantize", {"issue": "touched_other"}, f"{n} ({type(mb).__name__}) was replaced by {type(ma).__name__}", p)
                 elif hexdigest([(pn, R.tensor_digest(pp)) for pn, pp in ma.named_parameters(recurse=False)]) != other_digest[n]:
                     w.violate("C08", "structure", "quantize", {"issue": "changed_other"}, f"{n} parameters changed", p)
+                elif ma.training != other_mode[n]:
+                    w.violate("C08", "structure", "quantize", {"issue": "mode_of_other"}, f"{n or '<root>'} ({type(ma).__name__}): training flag {other_mode[n]} -> {ma.training}", p)
     install_observers(d)
     for n, m in qmodules(model):
         d.ema[n] = {"in": False, "out": False}
@@ -661,6 +664,12 @@ def do_forward(w, d, op, p):
                 cache[ck] = x
         else:
             w.probe("batch_object_reused")
+    if op.get("input_from") is not None:
+        # stage-wise use: the output an earlier (sub-module) run produced and the caller kept is fed to this run
+        x = w.__dict__.setdefault("kept", {}).get((d.id, op["input_from"]))
+        if x is None:
+            return "skipped"
+        w.probe("kept_output_fed_to_a_later_run")
     w.last_input = (key, x, (tuple(d.in_shape), d.dtype))
     depth0 = w.depth == 0
     c13 = w.focus("C13") and depth0
@@ -694,6 +703,8 @@ def do_forward(w, d, op, p):
         exc = e
     except Exception as e:
         exc = e
+    if op.get("keep") is not None and exc is None and isinstance(out, torch.Tensor):
+        w.__dict__.setdefault("kept", {})[(d.id, op["keep"])] = out
     if fd:
         from .core import bump
 
@@ -908,6 +919,12 @@ def do_freeze(w, d, op, p):
                     w.violate("C09", "agreement", kind, dict(base, issue="differs_from_dynamic"), f"{n}: frozen weight differs from quantize_weight(float weight)", p)
                 for issue, det in geometry_issues(m):
                     w.violate("C09", "geometry", kind, dict(base, issue=issue), f"{n}: {det}", p)
+                # what is stored after freeze is the payload and its scale(s), not a graph that keeps the float weight
+                leaves, _ = R.inner_items(got)
+                for ln, lt in leaves:
+                    if isinstance(lt, torch.Tensor) and (lt.grad_fn is not None or lt.requires_grad):
+                        w.violate("C09", "geometry", kind, dict(base, issue="stored_tensor_attached_to_graph"), f"{n}: {ln} of the frozen weight has grad_fn={type(lt.grad_fn).__name__} requires_grad={lt.requires_grad}: the float weight stays alive behind it", p)
+                        break
             elif not is_target and R.tensor_digest(m.weight) != i["w"]:
                 w.violate("C09", "untouched", kind, dict(base, issue="non_target_weight"), f"{n}: weight of a module outside the freeze changed", p)
             rest = hexdigest(R.tensor_digest(getattr(m, "bias", None)), R.tensor_digest(m.input_scale), R.tensor_digest(m.output_scale), str(m.weight_qtype), str(m.activation_qtype))
@@ -958,8 +975,13 @@ def do_deepcopy(w, d, op, p):
     try:
         m2 = copy.deepcopy(d.model)
     except Exception as e:
-        # the statement says a copy does not change outputs; it is silent on whether a copy can be made
-        w.probe("deepcopy_unavailable:" + str((d.qcfg or {}).get("weights")) + ":" + d.frozen)
+        # "copying it does not change its outputs" presupposes that a quantized model can be copied at all
+        wq = str((d.qcfg or {}).get("weights"))
+        w.probe("deepcopy_unavailable:" + wq + ":" + d.frozen)
+        if d.quantized:
+            w.judged("C09")
+            low = wq in ("qint2", "qint4")
+            w.violate("C09", "copy_raises", "deepcopy", {"wq": "lowbit" if low else "8bit", "frozen": d.frozen != "no", "exc": type(e).__name__}, f"copy.deepcopy of a quantized model (weights {wq}, frozen: {d.frozen}) raised {e!r}"[:600], p)
         return "unavailable"
     n = Dep(op["new"])
     for a in ("arch", "in_shape", "dtype", "init", "wcls", "quantized", "stamp", "frozen", "calibrated", "restarts", "taint"):
@@ -1635,6 +1657,10 @@ def do_train(w, d, op, p):
     x = make_input(d, op["input"])
     if R.is_q(x):
         return "skipped"
+    if op.get("cl") and x.ndim == 4:
+        # an image batch in channels-last memory format: the convolution backward then hands channels-last gradients
+        x = x.contiguous(memory_format=torch.channels_last)
+        w.probe("channels_last_training_batch")
     x = x.clone().requires_grad_(True)
     for prm in d.model.parameters():
         prm.grad = None
@@ -1897,3 +1923,19 @@ def do_bad_call(w, d, op, p):
     if sdig is not None and R.state_digest(d.model) != sdig:
         w.violate("C13", "readonly_forward", "bad_call", {"issue": "state_changed", "kind": kind}, "a forward that failed outside any context changed the model's state", p)
     return "raised:" + type(exc).__name__ if exc is not None else "accepted"
+
+
+def do_set_mode(w, d, op, p):
+    """The caller leaves part of the tree in the other mode (the usual fine-tuning set-up: norm / dropout layers in
+    eval(), the rest in train()). Only flags of modules whose behaviour does not depend on them are switched, one
+    module at a time, so that the runs stay deterministic; quantize() must leave them alone."""
+    n = 0
+    for name, m in d.model.named_modules():
+        if not name or isinstance(m, torch.nn.Dropout) or hasattr(m, "qforward"):
+            continue
+        if H(op.get("seed", 0), "mode", name) % 100 < int(100 * op.get("frac", 0.5)):
+            m.training = bool(op.get("train", True))
+            n += 1
+    if n:
+        w.probe("mixed_train_eval_flags")
+    return "ok" if n else "skipped"
